@@ -199,6 +199,15 @@ func (u *Universe) Build(s *Spec) *object.Object {
 			panic(fmt.Sprintf("zzverif: parent spec o%d missing", s.Parent))
 		}
 		par := u.header(ps, false)
+		if ps.Parent >= 0 {
+			// two-level nesting: EC part -> size-split part -> root
+			gs := u.Specs[ps.Parent]
+			if gs == nil {
+				panic(fmt.Sprintf("zzverif: grandparent spec o%d missing", ps.Parent))
+			}
+			par.SetParent(u.header(gs, false))
+			par.SetParentID(u.IDs[ps.Parent])
+		}
 		obj.SetParent(par)
 		obj.SetParentID(u.IDs[s.Parent])
 	} else if s.NoIDPa {
